@@ -123,6 +123,12 @@ pub fn blocks(thorough: bool) -> Vec<Block> {
         b.push(Block::new(u_kind_triples(), pres(&bases8), "7 subsets x 8 bases"));
         b.push(Block::new(u_many(120), pres(&[0, R, NA | NE]), "7 subsets x {{}, r, na+ne}"));
     }
+    if thorough {
+        // the thorough space is a superset of the quick one: every quick block first, then the deeper ones
+        let mut all = blocks(false);
+        all.extend(b);
+        return all;
+    }
     b
 }
 
